@@ -106,6 +106,7 @@ impl Env for ProbeEnv {
 }
 
 thread_local! {
+    static SMALL_LIMIT: std::cell::Cell<u64> = std::cell::Cell::new(4096);
     static PROPERTY: std::cell::Cell<&'static str> = std::cell::Cell::new("C03");
 }
 
@@ -183,7 +184,7 @@ fn must_hold(name: &str, goal: Result<Lit, bool>, pos: bool, wb: u64, out: &mut 
             // false on every geometry of this path: any model of the path is a counterexample
             let small = with(|c| {
                 let size = c.ar.var(64, 2);
-                let lim = c.ar.konst(64, 4096);
+                let lim = c.ar.konst(64, SMALL_LIMIT.with(|l| l.get()));
                 c.ar.ult_lit(64, size, lim)
             });
             let mut m = Witness::default();
@@ -203,7 +204,7 @@ fn must_hold(name: &str, goal: Result<Lit, bool>, pos: bool, wb: u64, out: &mut 
                     // prefer a counterexample small enough to rebuild natively
                     let small = with(|c| {
                         let size = c.ar.var(64, 2);
-                        let lim = c.ar.konst(64, 4096);
+                        let lim = c.ar.konst(64, SMALL_LIMIT.with(|l| l.get()));
                         c.ar.ult_lit(64, size, lim)
                     });
                     if let Ok(sl) = small {
@@ -237,7 +238,7 @@ fn fill(i: u64) -> u64 {
 }
 
 /// Native run from the given geometry: a block of `size` cells, the pointer on cell `k`.
-/// Returns the tape with leading and trailing zero cells stripped.
+/// Returns the non-zero cells as (position relative to the first non-zero cell, value) pairs.
 fn native_run<C: CellType>(jit: bool, shift: isize, min_acc: isize, max_acc: isize, size: u64, k: i64) -> Vec<u64> {
     let mut cxt = Context::<C>::without_io();
     cxt.memory.make_accessible(0, size as isize);
@@ -253,25 +254,37 @@ fn native_run<C: CellType>(jit: bool, shift: isize, min_acc: isize, max_acc: isi
         let _ = e.execute(&mut cxt);
     }
     // the JIT does not write its pointer back: compare the tapes up to translation
+    // (non-zero cells, positions relative to the first of them)
     let span = 3 * size as isize + 2 * shift.abs() + 2 * (max_acc - min_acc) + 64;
-    let mut v: Vec<u64> = (-span..span).map(|j| cxt.memory.read(j).into_u64()).collect();
-    while v.last() == Some(&0) {
-        v.pop();
+    let mut v: Vec<u64> = Vec::new();
+    let mut first: Option<isize> = None;
+    for j in -span..span {
+        let x = cxt.memory.read(j).into_u64();
+        if x != 0 {
+            let f = *first.get_or_insert(j);
+            v.push((j - f) as u64);
+            v.push(x);
+        }
     }
-    let lead = v.iter().take_while(|x| **x == 0).count();
-    v.drain(..lead);
     v
 }
 
 pub fn replay(v: &Value) -> i32 {
     let g = |k: &str| v[k].as_i64().unwrap_or(0);
     let (shift, mn, mx, size, k) = (g("shift") as isize, g("min") as isize, g("max") as isize, g("size") as u64, g("k"));
-    if size == 0 || size > 4096 || k + (mn as i64) < 0 || k + (mx as i64) >= size as i64 {
+    let far = is_far(g("width") as u32, shift, mn, mx);
+    let _ = far;
+    if size == 0 || size > 4096 + (mx - mn) as u64 || k + (mn as i64) < 0 || k + (mx as i64) >= size as i64 {
         println!("NOT-REPRODUCED: geometry outside what the native confirmation rebuilds");
         return 0;
     }
     fn both<C: CellType>(shift: isize, mn: isize, mx: isize, size: u64, k: i64) -> (Vec<u64>, Vec<u64>) {
-        (native_run::<C>(true, shift, mn, mx, size, k), native_run::<C>(false, shift, mn, mx, size, k))
+        // the oracle first: a death after this line is the JIT's
+        let b = native_run::<C>(false, shift, mn, mx, size, k);
+        println!("ORACLE-DONE");
+        use std::io::Write;
+        let _ = std::io::stdout().flush();
+        (native_run::<C>(true, shift, mn, mx, size, k), b)
     }
     let (a, b) = match g("width") {
         8 => both::<u8>(shift, mn, mx, size, k),
@@ -281,7 +294,7 @@ pub fn replay(v: &Value) -> i32 {
     };
     if a != b {
         let at = a.iter().zip(b.iter()).position(|(x, y)| x != y).unwrap_or(a.len().min(b.len()));
-        println!("REPRODUCED property={} pointer move by {} with window [{}, {}] at {} bits from a block of {} cells, pointer on cell {}: JIT and bytecode interpreter tapes differ (lengths {} / {}, first difference at {})", v["property"].as_str().unwrap_or("C03"), shift, mn, mx, g("width"), size, k, a.len(), b.len(), at);
+        println!("REPRODUCED property={} pointer move by {} with window [{}, {}] at {} bits from a block of {} cells, pointer on cell {}: JIT and bytecode interpreter tapes differ (non-zero cells {} / {}, first difference at entry {})", v["property"].as_str().unwrap_or("C03"), shift, mn, mx, g("width"), size, k, a.len() / 2, b.len() / 2, at / 2);
         1
     } else {
         println!("NOT-REPRODUCED: the JIT and the bytecode interpreter leave the same tape");
@@ -302,7 +315,7 @@ fn confirm_child(v: &Value) -> Option<String> {
     let st = loop {
         match child.try_wait() {
             Ok(Some(st)) => break Some(st),
-            Ok(None) if t0.elapsed().as_secs() > 20 => {
+            Ok(None) if t0.elapsed().as_secs() > if v["far"].as_bool() == Some(true) { 120 } else { 20 } => {
                 let _ = child.kill();
                 let _ = child.wait();
                 break None;
@@ -317,8 +330,12 @@ fn confirm_child(v: &Value) -> Option<String> {
     }
     use std::os::unix::process::ExitStatusExt;
     let st = st?;
+    if !out.contains("ORACLE-DONE") && st.code() != Some(0) {
+        // the bytecode interpreter (the oracle of this replay) did not get through: nothing is shown about the JIT
+        return None;
+    }
     if let Some(sig) = st.signal() {
-        return Some(format!("native run died with signal {}", sig));
+        return Some(format!("native JIT run died with signal {}", sig));
     }
     match st.code() {
         Some(1) => Some(out.lines().find(|l| l.starts_with("REPRODUCED")).unwrap_or("REPRODUCED").to_string()),
@@ -331,8 +348,28 @@ fn confirm_child(v: &Value) -> Option<String> {
 fn lemma<C: CellType>(shift: isize, min_acc: isize, max_acc: isize, res: &mut Out) {
     let wb = (C::BITS / 8) as u64;
     let mk = |insts: Vec<Instr<C>>| Program::<C> { temps: 0, min_accessed: min_acc, max_accessed: max_acc, live: vec![0; insts.len()], insts };
-    let code = BaseJitCompiler::<C>::verif_from_bytecode(mk(vec![Instr::Mov(shift)])).print_mc(false, true);
-    let empty = BaseJitCompiler::<C>::verif_from_bytecode(mk(vec![])).print_mc(false, true);
+    let far = is_far(C::BITS, shift, min_acc, max_acc);
+    SMALL_LIMIT.with(|l| l.set(4096 + (max_acc - min_acc) as u64));
+    let built = std::panic::catch_unwind(std::panic::AssertUnwindSafe(|| {
+        (BaseJitCompiler::<C>::verif_from_bytecode(mk(vec![Instr::Mov(shift)])).print_mc(false, true), BaseJitCompiler::<C>::verif_from_bytecode(mk(vec![])).print_mc(false, true))
+    }));
+    let (code, empty) = match built {
+        Ok(x) => x,
+        Err(_) => {
+            // code generation itself panicked (e.g. an arithmetic overflow check of a debug build)
+            res.configurations += 1;
+            res.lemmas += 1;
+            let why = crate::engine::LAST_PANIC.with(|p| p.borrow_mut().take()).unwrap_or_else(|| "panic".into());
+            let tag = format!("w{} shift {} window [{}, {}]: machine code is generated for the move", C::BITS, shift, min_acc, max_acc);
+            let mut v = json!({"kind": "probe", "property": PROPERTY.with(|p| p.get()), "width": C::BITS, "shift": shift, "min": min_acc, "max": max_acc, "lemma": "machine code is generated for the move", "what": tag, "model": format!("code generation panicked: {}", why), "far": far, "size": (max_acc - min_acc + 1) as u64, "k": -(min_acc as i64), "id": 900_000 + res.failing.len() as u64});
+            if let Some(n) = confirm_child(&v) {
+                v["native"] = json!(n);
+                res.failing_confirmed_natively += 1;
+            }
+            res.failing.push(v);
+            return;
+        }
+    };
     // the epilogue is the common suffix of the two functions
     let mut epi = 0;
     while epi < empty.len() && epi < code.len() && empty[empty.len() - 1 - epi] == code[code.len() - 1 - epi] {
@@ -473,7 +510,7 @@ fn lemma<C: CellType>(shift: isize, min_acc: isize, max_acc: isize, res: &mut Ou
                     match verdict {
                         Some(true) => res.discharged += 1,
                         Some(false) => {
-                            let mut v = json!({"kind": "probe", "property": PROPERTY.with(|p| p.get()), "width": C::BITS, "shift": shift, "min": min_acc, "max": max_acc, "lemma": name, "what": tag, "model": detail, "id": res.failing.len() as u64 * 1000 + (C::BITS as u64) * 7 + (shift as i64 as u64 % 997)});
+                            let mut v = json!({"kind": "probe", "property": PROPERTY.with(|p| p.get()), "width": C::BITS, "shift": shift, "min": min_acc, "max": max_acc, "lemma": name, "what": tag, "model": detail, "far": far, "id": res.failing.len() as u64 * 1000 + (C::BITS as u64) * 7 + (shift as i64 as u64 % 997)});
                             if let Some((size, k)) = geo {
                                 v["size"] = json!(size);
                                 v["k"] = json!(k);
@@ -506,6 +543,15 @@ pub fn run_one(bits: u32, s: isize, mn: isize, mx: isize) -> Out {
     out
 }
 
+/// A byte displacement of the move or of the window does not fit the 32-bit fields the code generator uses.
+pub fn is_far(bits: u32, shift: isize, mn: isize, mx: isize) -> bool {
+    let w = (bits / 8) as i128;
+    [shift, mn, mx, -mn, -mx].iter().any(|&x| {
+        let b = x as i128 * w;
+        b > i32::MAX as i128 || b < i32::MIN as i128
+    })
+}
+
 /// The configurations, most informative first (the quick tier gets as far as its time allows).
 pub fn configurations() -> Vec<(u32, isize, isize, isize)> {
     let windows: [(isize, isize); 4] = [(-3, 5), (0, 0), (-1, 0), (0, 17)];
@@ -521,7 +567,13 @@ pub fn configurations() -> Vec<(u32, isize, isize, isize)> {
         }
     }
     v.sort();
-    v.into_iter().map(|x| x.1).collect()
+    let mut v: Vec<_> = v.into_iter().map(|x| x.1).collect();
+    // displacement boundary: byte offsets at and just inside the 32-bit limit
+    let far: [(u32, isize, isize, isize); 6] = [(64, (1 << 28) - 1, 0, 0), (64, 1 << 28, 0, 0), (64, -(1 << 28) - 1, 0, 0), (8, 1 << 31, 0, 0), (64, 1, 0, 1 << 28), (16, -3, -(1 << 30) - 1, 0)];
+    for (i, f) in far.into_iter().enumerate() {
+        v.insert(4 + i, f);
+    }
+    v
 }
 
 pub fn run() -> Out {
